@@ -46,6 +46,8 @@ def run_property(prop, tier="quick", root=None, overrides=None, write=True, quie
     if tier == "thorough" and write:
         from .selftest import run_selftest
         selftest = run_selftest(prop, root, quiet=quiet)
+        from .mutsweep import run_sweep
+        selftest["mutation_sweep"] = run_sweep(prop, root, quiet=quiet)
     code, out = finish(ctx, time.time() - t0, seed, selftest=selftest, write=write, quiet=quiet)
     return code, out, ctx
 
